@@ -44,7 +44,7 @@ VT = _client._VERIFICATION_TRAILER
 
 
 @harness(P, per_job=True, params=_params, bounds="stub lengths 0..48,63..65,127..129,255..257,300 (quick) / 0..320,1023..1025,4095,4096 (thorough) with symbolic stub content, verification "
-         "trailer on/off, signature sizes {16,28,60,76} (+{0,255} thorough), header signing on/off, context id and opnum symbolic",
+         "trailer on/off, signature sizes {16,28,60,76} (+{0,255} thorough), header signing on/off, context id and opnum symbolic; then a second request on the same client and a request on a second connection whose context has another signature size",
          outside="stub lengths not listed (symbolic-length harness framing_symlen covers the arithmetic for every length)",
          must_reach=("frag_len/auth_len", "vt at next 4-byte boundary", "trailer 16-aligned, pad_length = padding added", "exactly header|stub+pad|trailer handed to wrap",
                      "wire = header | sealed | trailer | signature"))
@@ -90,6 +90,20 @@ def framing(c, L, vt, sig, sign):
     c.check(all_of([len(b2) == body2 + q16, t2[2] == q16, seq_eq(b2[:L2], stub2), seq_eq(b2[L2 + q4 : L2 + q4 + len(vt2)], vt2), len(wire2) == 24 + len(b2) + 8 + sig,
                     wire2[8] == (len(wire2) & 0xFF), wire2[9] == (len(wire2) >> 8), wire2[10] == sig & 0xFF, seq_eq(wire2[24 + len(b2) : 32 + len(b2)], t2)]),
             "second request on the same client is framed on its own")
+    # a second CONNECTION in the same process whose security context negotiated a different signature size (negotiate -> NTLM 16 / Kerberos 28, 60, 76)
+    sig3 = {16: 28, 28: 60, 60: 76, 76: 16}.get(sig, 16)
+    ctx3 = secctx.IdealContext(c, sig3, tag="conn2_")
+    client3 = rc.RpcClient(secctx.provider(ctx3))
+    client3._sign_header = sign
+    L3 = (L * 5 + 3) % 53
+    stub3 = c.bytes("stub3", L3)
+    req3, off3 = c.call(client3._create_request, ctx_id, opnum, stub3, verification_trailer=None)
+    wire3 = refs.cat(c.call(client3._prepare_pdu, req3, off3))
+    (_, h3), (_, b3), (_, t3), _ = ctx3.wrap_calls[0]["bufs"]
+    r16 = -L3 % 16
+    c.check(all_of([len(b3) == L3 + r16, t3[2] == r16, len(wire3) == 24 + len(b3) + 8 + sig3, wire3[8] == (len(wire3) & 0xFF), wire3[9] == (len(wire3) >> 8),
+                    wire3[10] == sig3 & 0xFF, wire3[11] == sig3 >> 8, seq_eq(wire3[32 + len(b3) :], ctx3.wrap_calls[0]["sig"])]),
+            "a second connection with another signature size is framed with its own size")
     return n
 
 
